@@ -297,6 +297,17 @@ def _admissible2(ctx, s2, dt, datas):
                     return (False, f"dtype is the constant non-nullable <{Kt}> but the data are {sh(obj, 20)}'s own elements, which may "
                                    f"contain None" + ("" if Kt == "object" else " or values of another kind"))
             return (None, f"constant non-nullable <{Kt}> over unclassified data")
+        # object kind, nullable exactly when the stored data holds a None: any(v is None for v in <the data>)
+        if Kt == "object" and nn[0] == "call" and nn[1] == ("name", "any") and len(nn[2]) == 1 and not nn[3] and nn[2][0][0] == "obj" \
+                and it.objs[nn[2][0][1]].kind in ("genexp", "listcomp") and datas:
+            g = nn[2][0]
+            gev = [e for e in it.events if e.kind == "elem" and e.term == g]
+            if len(gev) == 1:
+                e = gev[0]
+                gl = [L for L in e.loops if L not in it.objs[g[1]].loops]
+                if len(gl) == 1 and e.conds == it.objs[g[1]].conds and e.value == ("cmp", "Is", ("elem", it.loops[gl[0]].iter, gl[0]), SNONE) \
+                        and all(strip_seq(it, it.loops[gl[0]].iter) == strip_seq(it, d) for d in datas):
+                    return (True, "CONST(object), nullable iff a None is among the stored values")
         # object kind with the SOURCE's nullability over the source's own elements (to_object)
         src = None
         okn = True
@@ -353,6 +364,8 @@ def _admissible2(ctx, s2, dt, datas):
             se = same_elements_of(it, d)
             if se and se[0] == obj:
                 continue
+            if ds == obj:
+                continue           # list(v) / tuple(v) under v's own dtype: iterating a vector yields its own elements
             if s2.qual == "vector.Vector.copy" and _copy_sources_only2(s2, d, obj):
                 continue           # new_values / self._underlying selected by or / if-else / list(): same sources
             evs = element_values(it, d)
@@ -1518,11 +1531,11 @@ MUTANTS = [
     dict(id="fillna-standard-path-non-nullable", module=_V, old="			new_dtype = dtype.with_nullable(nullable=new_nullable)",
          new="			new_dtype = dtype.with_nullable(nullable=False)", rules=["a.site-typing"]),
     dict(id="dropna-keeps-none", module=_V,
-         old="		return Vector(tuple(elem for elem in self._underlying if elem is not None),\n			dtype=self._dtype.with_nullable(False) if self._dtype is not None else None)",
-         new="		return Vector(tuple(elem for elem in self._underlying),\n			dtype=self._dtype.with_nullable(False) if self._dtype is not None else None)", rules=["a.site-typing"]),
+         old="		return Vector(tuple(elem for elem in self._underlying if elem is not None),\n			dtype=self._dtype.with_nullable(False) if self._dtype is not None else None,\n			name=self._name, as_row=self._display_as_row)",
+         new="		return Vector(tuple(elem for elem in self._underlying),\n			dtype=self._dtype.with_nullable(False) if self._dtype is not None else None,\n			name=self._name, as_row=self._display_as_row)", rules=["a.site-typing"]),
     dict(id="dropna-fast-path", module=_V,
-         old="		return Vector(tuple(elem for elem in self._underlying if elem is not None),\n			dtype=self._dtype.with_nullable(False) if self._dtype is not None else None)",
-         new="		if self._dtype is not None and not self._dtype.nullable:\n			return Vector(self._underlying, dtype=self._dtype.with_nullable(False))\n		return Vector(tuple(elem for elem in self._underlying if elem is not None),\n			dtype=self._dtype.with_nullable(False) if self._dtype is not None else None)",
+         old="		return Vector(tuple(elem for elem in self._underlying if elem is not None),\n			dtype=self._dtype.with_nullable(False) if self._dtype is not None else None,\n			name=self._name, as_row=self._display_as_row)",
+         new="		if self._dtype is not None and not self._dtype.nullable:\n			return Vector(self._underlying, dtype=self._dtype.with_nullable(False))\n		return Vector(tuple(elem for elem in self._underlying if elem is not None),\n			dtype=self._dtype.with_nullable(False) if self._dtype is not None else None,\n			name=self._name, as_row=self._display_as_row)",
          rules=["a.site-typing"]),
     dict(id="compare-drops-bool", module=_V, count=2, nth=0,
          old="			result_values = tuple(False if (x is None or y is None) else bool(op(x, y)) for x, y in zip(self, other, strict=True))",
